@@ -5,6 +5,7 @@ package utils
 
 import (
 	"bufio"
+	"bytes"
 	"io"
 	"io/fs"
 	"os"
@@ -64,6 +65,23 @@ func GlobInDir(dir string, patterns ...string) ([]string, error) {
 		matches = append(matches, subMatches...)
 	}
 	return matches, nil
+}
+
+// ScanLinesKeepCR is a split function like bufio.ScanLines that does not strip a
+// carriage return at the end of a line: a caller that rewrites lines can put back
+// exactly the line ending it found.
+func ScanLinesKeepCR(data []byte, atEOF bool) (advance int, token []byte, err error) {
+	if atEOF && len(data) == 0 {
+		return 0, nil, nil
+	}
+	if i := bytes.IndexByte(data, '\n'); i >= 0 {
+		return i + 1, data[0:i], nil
+	}
+	if atEOF {
+		return len(data), data, nil
+	}
+	// request more data
+	return 0, nil, nil
 }
 
 func IsEscaped(input string, position int) bool {
